@@ -30,8 +30,20 @@ def run(tier, seed):
                 if rng.random() < 0.3:        # the very same plasmid, loaded with another origin
                     new = gen.rotate(c["modules"][pos], rng.randrange(1, len(c["modules"][pos])))
                 r = {"fn": "assemble", "enz": espec, "vector": {"id": "vec", "seq": gen.rotate(c["vector"], rng.randrange(len(c["vector"])))},
-                     "modules": list(mods), "id": "p", "name": "p", "twin": {"by": "swap", "pos": pos, "mod": {"id": "new", "seq": new}}}
+                     "modules": list(mods), "id": "p", "name": "p",
+                     "twin": {"by": "swap", "pos": pos, "mod": {"id": "new", "seq": new}, "reuse": rng.random() < 0.5}}
                 recipes.append(r)
+        # curated inputs (feature tables, citations, shared references): one module exchanged, every other OBJECT used again
+        for _ in range(1 if q else 4):
+            nm = rng.randint(2, max(2, min(3, G.capacity() - 1)))
+            r = ac.case_recipe(G, espec, rng, nm, annotate=True, refs=True, shuffle=False)
+            if r is None or len(r["modules"]) < 2:
+                continue
+            pos = rng.randrange(len(r["modules"]))
+            old = r["modules"][pos]
+            r["twin"] = {"by": "swap", "pos": pos, "reuse": True,
+                         "mod": dict(old, id="new", seq=gen.rotate(old["seq"], rng.randrange(1, len(old["seq"]))), feats=[], refs=[])}
+            recipes.append(r)
     if True:       # same-type replacements among real registry plasmids
         from . import registry_asm
         rr = registry_asm.swap_recipes(rng, q)[:(3 if q else 24)]
